@@ -25,7 +25,7 @@ import zlib
 
 from mc import pattern
 from mc.models import DATA, HOLE, ZERO, GuestDisk
-from mc.vfile import Image
+from mc.vfile import Image, entries, entries1, slot_range
 
 MAGIC = 0x514649FB
 V2HDR = ">IIQIIQIIQQIIQ"
@@ -95,7 +95,7 @@ def build(states, slots, cluster_bits=16, version=3, size=None, window_at=0, tot
         return st["kind"] if isinstance(st, dict) else st
 
     def used_tables(sts, at):
-        return sorted({(at + i) // l2n for i, st in enumerate(sts) if _tok(st) != U or (isinstance(st, dict) and "z" in st["sub"])})
+        return sorted({(at + i) // l2n for i, st in entries1(sts) if _tok(st) != U or (isinstance(st, dict) and "z" in st["sub"])})
 
     snaps = snapshots or []
     act_tables = used_tables(states, window_at)
@@ -109,7 +109,7 @@ def build(states, slots, cluster_bits=16, version=3, size=None, window_at=0, tot
     ntab = l1_clusters + sum(snap_l1_clusters) + n_l2
     used = set()
     for sts, sl in [(states, slots)] + [(s["states"], s["slots"]) for s in snaps]:
-        used |= {p for st, p in zip(sts, sl) if _tok(st) in PLACED and p is not None}
+        used |= {p for _i, st, p in entries(sts, sl) if _tok(st) in PLACED and p is not None}
     if nslots is None:
         nslots = max(used, default=-1) + 1
     if layout == "tables_after_data":
@@ -163,7 +163,7 @@ def build(states, slots, cluster_bits=16, version=3, size=None, window_at=0, tot
 
     def l2_entries(sts, sl, at, lay, comp_opts, comp_area):
         ents = {}
-        for i, (st, p) in enumerate(zip(sts, sl)):
+        for i, st, p in entries(sts, sl):
             g = at + i
             tok = _tok(st)
             bitmap = 0
@@ -219,7 +219,7 @@ def build(states, slots, cluster_bits=16, version=3, size=None, window_at=0, tot
     for si, s in enumerate(snaps):
         snap_ents.append(l2_entries(s["states"], s["slots"], s.get("window_at", window_at), s.get("layer", layer),
                                     s.get("comp", {}), comp_area))
-    for p in range(nslots + 1):
+    for p in slot_range(0, nslots + 1, owner):
         off = (db + p) << cluster_bits
         if p in owner:
             g, lay = owner[p]
@@ -232,7 +232,7 @@ def build(states, slots, cluster_bits=16, version=3, size=None, window_at=0, tot
         sub = cs // 32
         for sts, sl, at, lay in [(states, slots, window_at, layer)] + [
                 (s["states"], s["slots"], s.get("window_at", window_at), s.get("layer", layer)) for s in snaps]:
-            for i, (st, p) in enumerate(zip(sts, sl)):
+            for i, st, p in entries(sts, sl):
                 if isinstance(st, dict) and st["kind"] == N:
                     off = (db + p) << cluster_bits
                     # rewrite the slot: remove the whole-cluster extent, add per sub-cluster extents
@@ -342,10 +342,10 @@ def model(states, cluster_bits, size=None, window_at=0, total_clusters=None, lay
     cs = 1 << cluster_bits
     W = len(states)
     total = total_clusters or (window_at + W)
-    units = [HOLE] * total
+    units = [HOLE] * total if total <= 200000 else {}
     layers = {}
     smap = {}
-    for i, st in enumerate(states):
+    for i, st in entries1(states):
         g = window_at + i
         if isinstance(st, dict):
             if st["kind"] == C:
@@ -434,7 +434,7 @@ def selfvalidate():
             f = img.sparse(log=False)
             d = decode(f.peek_at)
             ref = model(states, cb, None, l2n - 2, l2n + 1)
-            for i, st in enumerate(states):
+            for i, st in entries1(states):
                 g = l2n - 2 + i
                 (kind, data), = d["cluster"](g)
                 exp = ref.content(g * cs, cs)
